@@ -122,7 +122,7 @@ class SeedInfo:
                 if k in kinds and self._ok_ws(k, ln, s, e):
                     out.append((k, ln, s))
         for ln, c in self.adj:
-            if "WI" in kinds and self._ok_line(ln, self.lines[ln][:c] + " " + self.lines[ln][c:]):
+            if "WI" in kinds and self._ok_line(ln, self.lines[ln][:c] + " " + self.lines[ln][c:]) and not self._inside_literal(ln, c):
                 out.append(("WI", ln, c))
         for i in sorted(self.bound):
             b = self.bound[i]
@@ -153,6 +153,24 @@ class SeedInfo:
                 out.append((k, 0, 0))
         out.sort(key=lambda o: (o[1], o[2], ALL_OPS.index(o[0])))
         return out
+
+    def _inside_literal(self, ln, c):
+        """VSG's tokenizer splits abstract literals (20e-10, 16#FF#, 1.5) into several tokens: a space there is not a re-layout"""
+        L = self.lines[ln]
+        i = c
+        while i > 0 and (L[i - 1].isalnum() or L[i - 1] in "_#."):
+            i -= 1
+        j = c
+        while j < len(L) and (L[j].isalnum() or L[j] in "_#."):
+            j += 1
+        left, right = L[i:c], L[c:j]
+        if left[:1].isdigit():
+            return True  # the run left of the gap starts with a digit: we are inside / directly after a numeric literal
+        if c > 0 and L[c - 1] in "+-" and c >= 2 and L[c - 2] in "eE" and any(ch.isdigit() for ch in L[max(0, c - 6) : c - 2]):
+            return True  # exponent sign
+        if right[:1] in "+-" and left[-1:] in "eE":
+            return True
+        return False
 
     def _ok_line(self, ln, new):
         return _nonblank(new) == _nonblank(self.lines[ln])
